@@ -329,9 +329,22 @@ the namespace again.  Under the empty namespace the same map is linked (`bulk_li
 theorem bulk_namespace_witness :
     let w := run World.init [.new 0 "m.", .add 0 ⟨"m.a", 1, none⟩, .add 0 ⟨"m.b", 2, none⟩]
     (step w (.bulk 0 [("m.b", "m.a")])).2 = .err .notfound ∧ (step w (.bulk 0 [("b", "a")])).2 = .err .notfound ∧
-    checkKnown (viewOf w) (.bulk 0 [("m.b", "m.a")]) (step w (.bulk 0 [("m.b", "m.a")])).2 = some "bulk_namespace" ∧
+    checkKnown (viewOf w) (.bulk 0 [("m.b", "m.a")]) (step w (.bulk 0 [("m.b", "m.a")])).2
+      (viewOf (step w (.bulk 0 [("m.b", "m.a")])).1) = some "bulk_namespace" ∧
     (let w0 := run World.init [.new 0 "", .add 0 ⟨"a", 1, none⟩, .add 0 ⟨"b", 2, none⟩]
      (step w0 (.bulk 0 [("b", "a")])).2 = .ok) := by decide
+
+/-- **known defect, not repaired** (findings/C03.json `C03-bulk-refused-partial`, clause
+`bulk_refused_unchanged` of `Alias.checkKnown`): the map form refused for a cycle (or a double alias, an
+unknown name, a constraint) keeps the links it had already made, and leaves them out of sync:
+`{a->b, b->a, c->d}` raises, yet c now follows d with c = 3 ≠ d = 4.  The statement's "refused leaving
+everything unchanged" is proved of the pair form only (`alias_refused_unchanged`). -/
+theorem bulk_refused_partial_witness :
+    let w := run World.init [.new 0 "", .add 0 ⟨"a", 1, none⟩, .add 0 ⟨"b", 2, none⟩, .add 0 ⟨"c", 3, none⟩, .add 0 ⟨"d", 4, none⟩]
+    let r := step w (.bulk 0 [("a", "b"), ("b", "a"), ("c", "d")])
+    r.2 = .err .bpp ∧ ((viewOf r.1).get 0).map (·.links) = some [("d", "c")] ∧ (val r.1 2, val r.1 3) = (3, 4) ∧
+    checkKnown (viewOf w) (.bulk 0 [("a", "b"), ("b", "a"), ("c", "d")]) r.2 (viewOf r.1) = some "bulk_refused_unchanged" := by
+  decide
 
 /-! ## `getAlias`, `getAliases`, `getFrom`: what they answer, with and without namespace
 
